@@ -289,21 +289,30 @@ PROPS["C19"] = dict(
 
 _INACC = dict(quick=dict(inacc=[0, 1, 25, 34, 50, 100, 101], JS=[3]), thorough=dict(inacc=[0, 1, 2, 3, 4, 5, 6, 7, 8, 9, 10, 11, 12, 14, 16, 20, 25, 33, 34, 50, 51, 100, 101, 1000], JS=[2, 3, 4]))
 PROPS["C10"] = dict(
-    level="other",
-    level_text="Solver-decided step obligations plus a written timing argument (no unbounded liveness is claimed from bounded checking): (a) calcInterruptInterval as a pure function with Timeout symbolic over int64 and every "
+    level="model_checking",
+    level_text="Bounded runs of the real New+main with a PERIODIC ticker model (next tick = first grid point after the previous one was taken, + jitter <= lambda), timed arrivals and every clock reading / wake-up "
+               "late by at most a symbolic lambda: for every delivered slice the oldest element waited <= Timeout + interval + 3*lambda, and no buffered element is overdue at any tick (1-2 elements, up to 4 ticks, d in {1,2}); "
+               "plus step obligations that carry the argument to any history: (a) calcInterruptInterval as a pure function with Timeout symbolic over int64 and every "
                "value class of TimeoutInaccuracy: tau*d <= Timeout < (tau+1)*d, errors exactly in the documented cases (v1: tau >= 10ms); (b) New wires that interval into the ticker (period == tau, not Timeout); "
                "(c) on the real loop() of join (v1, v2) and unite from an ARBITRARY buffer state whose elements were accepted no earlier than passAt: a tick read at now with now-passAt >= Timeout flushes the whole buffer, "
                "an earlier tick changes nothing, an arrival never moves passAt unless it flushes (so a steady trickle cannot postpone the flush), and the invariant 'accepted no earlier than passAt' is preserved.",
-    level_note="What is NOT decided by the solver: that the runtime delivers a tick within tau+lambda of the previous one while the loop is not blocked (time.Ticker contract) and that a ready consumer takes a slice within lambda. "
-               "With these two assumptions the obligations give: stay <= Timeout + tau + c*lambda <= Timeout*(1+1/floor(100/inaccuracy)) + c*lambda (DESIGN 7 C10). Bounds: JoinSize 3 (thorough 2..4), one event per step.",
+    level_note="Assumed (the property's own premises): the runtime delivers a tick within tau+lambda of the previous one while the loop is not blocked (time.Ticker contract, built into the ticker model) and a ready consumer takes a slice at once. "
+               "Beyond the bounded runs the step obligations give: stay <= Timeout + tau + c*lambda <= Timeout*(1+1/floor(100/inaccuracy)) + c*lambda (DESIGN 7 C10). Bounds: JoinSize 3 (thorough 2..4), one event per step.",
     technique="symbolic execution of go/ssa: pure-function obligations over the whole int64 domain + inductive step obligations on loop() with a symbolic clock; Int-encoded SMT (z3)",
     explanation="Checked by the solver: (a) tau*d <= Timeout < (tau+1)*d and the error cases of calcInterruptInterval for all Timeout; (b) ticker period == tau; (c) inductive step on loop(): flush at the first tick with now-passAt >= Timeout, "
                 "passAt unchanged by arrivals that do not flush, buffered elements accepted no earlier than passAt. Combined on paper with the time.Ticker contract these bound the stay of an element by Timeout*(1+1/d) + c*lambda.",
     assumptions=_JOIN_ASSUME + ["time.Ticker delivers ticks with period tau (+ jitter <= lambda) while the receiver is not blocked elsewhere; a ready consumer takes a slice within lambda (both are the property's own premises: 'a consumer ready to receive', 'plus scheduling latency')"],
     bounds=dict(quick="inaccuracy in {0,1,25,34,50,100,101}, JoinSize 3, one event per step, Timeout over all int64", thorough="24 inaccuracy values covering every value of floor(100/inaccuracy), JoinSize 2..4"),
-    groups=[dict(mod="v2", pkg="join", overlay="harness/v2/join", harness="^VerifC10_", params=_INACC),
-            dict(mod="v2", pkg="join/unite", overlay="harness/v2/unite", harness="^VerifC10_", params=_INACC),
-            dict(mod="v1", pkg="join", overlay="harness/v1/join", harness="^VerifC10_", params=_INACC)])
+    groups=[dict(mod="v2", pkg="join", overlay="harness/v2/join", harness="^VerifC10_(interval|wiring|step)$", params=_INACC),
+            dict(mod="v2", pkg="join/unite", overlay="harness/v2/unite", harness="^VerifC10_(interval|wiring|step)$", params=_INACC),
+            dict(mod="v1", pkg="join", overlay="harness/v1/join", harness="^VerifC10_(interval|wiring|step)$", params=_INACC),
+            # bounded runs with a periodic ticker, timed arrivals and a latency parameter lambda (c = 3)
+            dict(mod="v2", pkg="join", overlay="harness/v2/join", harness="^VerifC10_run$", timeout=60000,
+                 params=dict(quick=dict(M=[1], inacc=[100, 50], c=[3], ticks=[3]), thorough=dict(M=[1, 2], inacc=[100, 50], c=[3], ticks=[4]))),
+            dict(mod="v2", pkg="join/unite", overlay="harness/v2/unite", harness="^VerifC10_run$", timeout=60000,
+                 params=dict(quick=dict(M=[1], inacc=[100], c=[3], ticks=[3]), thorough=dict(M=[1, 2], inacc=[100, 50], c=[3], ticks=[3]))),
+            dict(mod="v1", pkg="join", overlay="harness/v1/join", harness="^VerifC10_run$", timeout=60000,
+                 params=dict(quick=dict(M=[1], inacc=[100], c=[3], ticks=[3]), thorough=dict(M=[1, 2], inacc=[100, 50], c=[3], ticks=[3])))])
 
 def _c20(mod, pkg, overlay, harness, q, t, scen=None):
     g = dict(mod=mod, pkg=pkg, overlay=overlay, harness=harness, params=dict(quick=q, thorough=t), race_scenario_advisory=True)
